@@ -12,7 +12,7 @@
    unavailable / not-ready / unknown error, any arrival order. *)
 From Coq Require Import ZArith List Bool String.
 Import ListNotations.
-From Verif Require Import Lib.Corr Gen.C23 Model.C23 Proofs.C23 Proofs.C23_order.
+From Verif Require Import Lib.Corr Gen.C23 Model.C23 Proofs.C23 Proofs.C23_order Proofs.C23_dist.
 Open Scope Z_scope.
 
 (* 409 only if conflicts alone put quorum out of reach for some series. *)
@@ -85,6 +85,19 @@ Theorem C23_request_pred : forall rf rep place ws, 1 <= rf -> 0 <= rep ->
   exists st, handle rf rep place ws = Some st /\ pred_ok (CFan rf rep place ws st) = true.
 Proof. exact handle_pred. Qed.
 Print Assumptions C23_request_pred.
+
+(* The same with the side condition replaced by the shape of the forwarded
+   writes: distinct (node, replica) destinations that are exactly the hashring
+   placements of the request's series on its replicas (C22 proves that the
+   model of distributeTimeseriesToReplicas + sendWrites produces exactly one
+   response for each of them). *)
+Theorem C23_request_pred_structural : forall rf rep place ws, 1 <= rf -> 0 <= rep ->
+  NoDup (map write_dest ws) ->
+  (forall d, In d (map write_dest ws) <->
+     exists s r, (s < List.length place)%nat /\ In r (replicas_of rf rep) /\ d = (placed place s r, r)) ->
+  exists st, handle rf rep place ws = Some st /\ pred_ok (CFan rf rep place ws st) = true.
+Proof. exact handle_pred_structural. Qed.
+Print Assumptions C23_request_pred_structural.
 
 (* The repaired defect, kept as a theorem about the model with the OLD choice
    es.threshold = successThreshold: replication factor 4, one series, two
